@@ -29,7 +29,8 @@ CLAIMS = {
         text="Every get_sql/*_sql/__str__/__hash__/__eq__/fields_/tables_/nodes_ ... method of every concrete class "
              "writes only to objects it allocates, plus appends to the caller's parameterizer (pure/write); no "
              "hash-ordered set is iterated in an order-sensitive position (pure/det); no builder/constructor stores "
-             "a one-shot iterator (state/iterable); each contract is reachable (pure/reachable).",
+             "a one-shot iterator (state/iterable) or the iteration order of a hash-ordered set (state/order); each contract "
+             "is reachable (pure/reachable).",
         note=TRUST + "Thread-interleaving and cross-process claims follow from purity + determinism by a paper "
                      "argument (DESIGN §4.1).",
         design="§4.1, §5 C02"),
@@ -41,7 +42,9 @@ CLAIMS = {
              "context (quote chars, dialect, as_keyword, parameterizer, alias policies) unchanged - or the query "
              "class default for an outermost call (ctx/dialect); SqlContext.copy equals self except at the given "
              "keys (ctx/copy, 13 cases); dialects that forbid GROUP BY alias force the flag whatever context they get "
-             "(ctx/convention); no package object is formatted through str() inside a render (ctx/str-bypass).",
+             "(ctx/convention); no package object is formatted through str() inside a render (ctx/str-bypass); no get_sql "
+             "writes to the object it renders (ctx/stateless = the C02 purity obligations); string / JSON literals are "
+             "escaped by the dialect of the context (ctx/escape = the C05 obligations under the MySQL dialect).",
         note=TRUST + "Wrapper choice per position (MySQL backslash rule) is decided under C05. Set-operand wrapping "
                      "is a builder attribute, not a context component, and is not covered.",
         design="§4.4, §5 C08"),
@@ -86,7 +89,7 @@ CLAIMS = {
              "(linear/once) and nested renders are evaluated in text order (linear/order); ValueWrapper/Array append "
              "exactly their value when a parameterizer is installed (param/leaf); only the leaf methods read the "
              "parameterizer (linear/guard-independence); Parameterizer.create_param appends exactly the value on every "
-             "returning path and returns a new Parameter (param/create); the placeholder table matches the dialect table "
+             "returning path and returns a new Parameter (param/create); should_parameterize is False exactly for enum members and '*' (param/should); the placeholder table matches the dialect table "
              "(param/table); no builder wraps a query-builder object in a constant wrapper (param/plain-data). "
              "L-LINEAR (paper) lifts this to whole statements.",
         note=TRUST + "Known findings: Column default of a non-Term node, Array.original_value may hold terms. "
@@ -113,7 +116,8 @@ CLAIMS = {
              "keywords at depth 0 occur at most once and in the dialect's order for every feasible combination of "
              "optional clauses (wf/order, pairwise feasibility by z3); an incomplete builder renders '' (wf/empty); "
              "builder methods addressing different clauses satisfy Bernstein's conditions on the read/write sets of "
-             "their real bodies (commute/reads, commute/writes) - where the conditions fail, a bounded witness search "
+             "their real bodies (commute/reads, commute/writes), and each method writes only slots of the clause it is about "
+             "(commute/own-clause) - where the conditions fail, a bounded witness search "
              "on the real code decides between a violation with input and a bounded stand-in.",
         note=TRUST + "Bounded stand-ins (commutation cases where Bernstein's conditions fail and no order dependence "
                      "was found) are labelled bounded and not counted as proved; 15 genuine order dependences are "
@@ -134,7 +138,7 @@ CLAIMS = {
         technique="contract-based deductive verification: symbolic execution of __eq__/__ne__/__hash__ (z3 "
                   "equivalences, read-set inclusion), structural contracts of the collectors, slot coverage of nodes_",
         level="proof",
-        text="x == x; == is a conjunction of same-attribute equalities (equivalence); != is its negation; the "
+        text="x == x; == is a conjunction of same-attribute equalities (equivalence) and symmetric (eq/sym); != is its negation; the "
              "attributes a hash reads are among those equality compares (eq/hash); tables_/fields_()/find_ are the "
              "full node collections (collect/complete); nodes_() traverses every rendered slot on every path (collect/nodes); the "
              "Field hash key determines (table, name) (collect/dedup - known finding).",
@@ -172,7 +176,7 @@ CLAIMS = {
         level="other",
         text="In every render function of every class each name-typed datum reaches the text only through "
              "format_quotes with the quote character of the context (alias: the alias quote character) "
-             "(quote/site); no package object is formatted through str() inside a render (quote/str-bypass); "
+             "(quote/site); a Field/Table/Index/Column/Schema prints its quoted name on every path (quote/emit); no package object is formatted through str() inside a render (quote/str-bypass); "
              "constructors store name arguments unmodified (name/store); format_quotes wraps and doubles (quote/func - "
              "known finding: no doubling); no SQL "
              "template is computed from data (quote/template); the dialect contexts carry the dialect's quote "
